@@ -14,6 +14,10 @@ CHECKS = {
              text="For ALL ints the translated validators accept exactly [-2^31,2^31-1] / [0,2^31-1]; for ALL model values they return True or raise ValueError naming class and attribute; the converter model's range test is proved equal to the translated validators; every integer-typed flattened property carries the right validator (instance, exhaustive); constructor and converter verdicts are proved equal to the range test for every such property and every int.",
              note="Trusted: Coq kernel+VM; translators x_val (AST), x_mm, x_pkg; model of Python numeric comparison / short-circuit in Val.v (validated on a value palette against the real functions); universe of 'any argument' is pv. Axioms: none.",
              ref="6/C12"),
+ "C08": dict(cat="proof", tech="Coq: kernel-evaluated checker dotnet_ok over the .cs files emitted by the dotnet plugin of the current tree, with proved soundness theorem dotnet_ok_spec; independent regex search as replay source",
+             text="Ground obligation C08_generated : dotnet_ok mm files = true (vm_compute) over the fresh plugin output, exhaustive over all structures / flattened properties / enumerations / 95 methods / ~655 files, read through the proved generic soundness theorem dotnet_ok_spec (for every metamodel and file list): member per flattened property with exact wire name, mapped type, nullable/Ignore rules, constructor assignment, enum values, method strings, request/response pairing, directions.",
+             note="Trusted: Coq kernel+VM; translators x_mm, x_cs (tokeniser, fail-closed); specification choices in Dotnet.v (cs_of, collections exemption, _-prefix skip rule, DataContract requirement, LSPMethods reading for notification methods); Newtonsoft/DataContract attribute semantics as documented; no C# compiler run. Axioms: none.",
+             ref="6/C08"),
 }
 ALL = ["C%02d" % i for i in range(1, 21)]
 def main():
